@@ -34,11 +34,29 @@ nested_value = st.one_of(
     attr_value,
     st.lists(st.integers(0, 3), max_size=3),
     st.dictionaries(st.sampled_from(["k", "j"]), st.lists(st.integers(0, 3), max_size=2), max_size=2),
+    st.lists(st.lists(st.integers(0, 3), max_size=2), min_size=1, max_size=2),
 )
+# {"__t": [...]} is turned into a *tuple* by build(): an immutable container holding mutable values
+# (not JSON-representable, so only used where nothing is written to a file: C07, C08)
+tuple_value = st.fixed_dictionaries({"__t": st.tuples(st.sampled_from(["v1", 7]), st.lists(st.integers(0, 3), max_size=2)).map(list)})
 
 
-def attrs(max_size=2, nested=False):
-    return st.dictionaries(st.sampled_from(ATTR_NAMES), nested_value if nested else attr_value, max_size=max_size)
+def realise(v):
+    """JSON attribute value -> Python value ({"__t": [...]} becomes a tuple)"""
+    if isinstance(v, dict):
+        if set(v) == {"__t"}:
+            return tuple(realise(x) for x in v["__t"])
+        return {k: realise(x) for k, x in v.items()}
+    if isinstance(v, list):
+        return [realise(x) for x in v]
+    return v
+
+
+def attrs(max_size=2, nested=False, tuples=False):
+    v = attr_value
+    if nested:
+        v = st.one_of(nested_value, nested_value, tuple_value) if tuples else nested_value
+    return st.dictionaries(st.sampled_from(ATTR_NAMES), v, max_size=max_size)
 
 
 def members_of(kind, min_size=0, max_size=5, none_p=False):
@@ -393,11 +411,12 @@ def net_spec(
     ids=None,
     min_edges=0,
     orderable_ids=False,
+    tuples=False,
 ):
     cls = cls or draw(st.sampled_from(["H", "DH", "SC"]))
     kind = kind or draw(kinds)
     alph = NODE_KINDS[kind]
-    a = attrs(nested=nested) if with_attrs else st.just({})
+    a = attrs(nested=nested, tuples=tuples) if with_attrs else st.just({})
     # isolated / pre-inserted nodes in a drawn order
     pre = draw(st.lists(st.sampled_from(alph), max_size=4, unique=True))
     nodes = [[n, draw(a)] for n in pre]
@@ -439,7 +458,7 @@ def net_spec(
 def build(spec):
     """construct the network of a spec through the public adders (nodes first, then edges in order)"""
     cls = spec["cls"]
-    net = copy.deepcopy(spec.get("net", {}))
+    net = realise(spec.get("net", {}))
     if cls == "H":
         H = xgi.Hypergraph(**net)
     elif cls == "DH":
@@ -447,17 +466,17 @@ def build(spec):
     else:
         H = xgi.SimplicialComplex(**net)
     for n, a in spec["nodes"]:
-        H.add_node(n, **copy.deepcopy(a))
+        H.add_node(n, **realise(a))
     for e in spec["edges"]:
         if cls == "DH":
             idx, tail, head, a = e
-            H.add_edge((list(tail), list(head)), idx=idx, **copy.deepcopy(a))
+            H.add_edge((list(tail), list(head)), idx=idx, **realise(a))
         elif cls == "SC":
             idx, m, a = e
-            H.add_simplex(list(m), idx=idx, **copy.deepcopy(a))
+            H.add_simplex(list(m), idx=idx, **realise(a))
         else:
             idx, m, a = e
-            H.add_edge(list(m), idx=idx, **copy.deepcopy(a))
+            H.add_edge(list(m), idx=idx, **realise(a))
     return H
 
 
